@@ -21,7 +21,7 @@ func pairFamilies(tier string) []pairFamily {
 		{name: "string",
 			seeds: map[string][][]string{"none": nil, "num": {c("SET", k, "5")}, "str": {c("SET", k, "ab")}},
 			ops: [][]string{c("SET", k, "x"), c("SET", k, "y", "NX"), c("SET", k, "z", "XX"), c("SETNX", k, "n"), c("GETSET", k, "g"), c("GET", k), c("INCR", k), c("DECRBY", k, "2"), c("INCRBYFLOAT", k, "0.5"),
-				c("APPEND", k, "p"), c("SETRANGE", k, "1", "q"), c("STRLEN", k), c("GETRANGE", k, "0", "-1"), c("DEL", k), c("EXISTS", k), c("TYPE", k), c("RENAME", k, k1), c("EXPIRE", k, "100"), c("PERSIST", k), c("TTL", k), c("SETEX", k, "100", "e")},
+				c("APPEND", k, "p"), c("SETRANGE", k, "1", "q"), c("SETRANGE", k, "0", "r"), c("STRLEN", k), c("GETRANGE", k, "0", "-1"), c("DEL", k), c("EXISTS", k), c("TYPE", k), c("RENAME", k, k1), c("EXPIRE", k, "100"), c("PERSIST", k), c("TTL", k), c("SETEX", k, "100", "e")},
 			ro: map[string]bool{"GET": true, "STRLEN": true, "GETRANGE": true, "EXISTS": true, "TYPE": true, "TTL": true}},
 		{name: "list",
 			seeds: map[string][][]string{"none": nil, "one": {c("RPUSH", k, "a")}, "two": {c("RPUSH", k, "a", "b")}},
@@ -109,7 +109,8 @@ func genPairScenarios(tier string) []*Scenario {
 		{"list", [][]string{c("RPUSH", k, "a"), c("EXPIRE", k, "1"), c("SET", kk, "s"), c("@advance", "2500")}},
 	} {
 		ops := [][]string{c("GET", k), c("SET", k, "w"), c("SETNX", k, "n"), c("APPEND", k, "x"), c("INCR", k), c("EXISTS", k), c("TTL", k), c("TYPE", k), c("DEL", k), c("EXPIRE", k, "100"), c("PERSIST", k),
-			c("RENAME", k, kk), c("RENAME", kk, k), c("LPUSH", k, "x"), c("LPUSHX", k, "y"), c("LLEN", k), c("LPOP", k), c("KEYS", "*"), c("SET", k, "w", "KEEPTTL"), c("SADD", k, "m")}
+			c("RENAME", k, kk), c("RENAME", kk, k), c("LPUSH", k, "x"), c("LPUSHX", k, "y"), c("LLEN", k), c("LPOP", k), c("KEYS", "*"), c("SET", k, "w", "KEEPTTL"), c("SADD", k, "m"),
+			c("SETEX", k, "100", "e"), c("SET", k, "f", "EX", "100")}
 		for i := 0; i < len(ops); i++ {
 			for j := i; j < len(ops); j++ {
 				a, b := ops[i], ops[j]
